@@ -315,3 +315,118 @@ Example ex_make_vec_env :
   = ([mk_desc 3 (Some 13%Z) [GWrapper 5%Z; GMonitor (Some (77%Z, 3))]; mk_desc 4 (Some 14%Z) [GWrapper 5%Z; GMonitor (Some (77%Z, 4))]], 10%Z) /\
   unwrap (fun l => match l with GWrapper c => Z.eqb c 5 | _ => false end) [GWrapper 4%Z; GWrapper 5%Z; GMonitor None; GWrapper 5%Z] = Some (GWrapper 5%Z).
 Proof. split; reflexivity. Qed.
+
+(* ===================== build round 5: observation plumbing (Model/ObsBuf.v) and index dispatch ===================== *)
+From SB3V Require Import Gen.Frag_obsbuf Model.ObsBuf Proofs.ObsBufProofs.
+
+(* (a) _save_obs(i, o): row i of every key of the space holds o's component for that key, every other row is unchanged -
+       for every leaf type, space (plain / any Dict key list / any Tuple arity), n_envs and any buffer reached before *)
+Theorem C01_save_obs_writes_only_row_i : forall (V : Type) (dV : V) sp n (b : buf V) i o key j,
+  wf_buf sp n b -> i < n -> In key (obs_space_info sp) ->
+  nth j (buf_get (save_obs dV (obs_space_info sp) b i o) key) dV =
+  if Nat.eqb j i then save_value dV key o else nth j (buf_get b key) dV.
+Proof. exact save_obs_rows. Qed.
+Print Assumptions C01_save_obs_writes_only_row_i.
+
+(* (b) after ANY write history, saving the observations l of all envs and reading the buffer returns, per key, the stack of the
+       per-env components in env order, in the container of the space kind - exactly what SubprocVecEnv's _stack_obs builds *)
+Theorem C01_obs_from_buf_is_stack_of_own_observations : forall (V : Type) (dV : V) sp n (h : list (wop V)) (l : list (obs V)),
+  wf_space sp -> length l = n ->
+  let b := fst (wrun_init dV sp n h) in
+  obs_from_buf sp (save_all dV (obs_space_info sp) b 0 l) = stack_obs dV sp l /\
+  batch_kind (obs_from_buf sp (save_all dV (obs_space_info sp) b 0 l)) = kind_of sp.
+Proof. exact dummy_stack_agrees_with_subproc. Qed.
+Print Assumptions C01_obs_from_buf_is_stack_of_own_observations.
+
+(* (c) value semantics with explicit buffer versions: the batch returned by a read inside any history is the value of the buffer
+       version at that moment; the writes h2 that follow do not change it (nor any batch returned before) *)
+Theorem C01_returned_batch_is_a_copy : forall (V : Type) (dV : V) sp (b : buf V) h1 h2,
+  snd (wrun dV sp b (h1 ++ WSnap :: h2)) =
+  snd (wrun dV sp b h1) ++ obs_from_buf sp (fst (wrun dV sp b h1)) :: snd (wrun dV sp (fst (wrun dV sp b h1)) h2).
+Proof. exact snapshot_is_a_copy. Qed.
+Print Assumptions C01_returned_batch_is_a_copy.
+
+Theorem C01_earlier_batches_do_not_depend_on_later_writes : forall (V : Type) (dV : V) sp (b : buf V) h1 h2,
+  firstn (length (snd (wrun dV sp b h1))) (snd (wrun dV sp b (h1 ++ h2))) = snd (wrun dV sp b h1).
+Proof. exact snapshots_prefix. Qed.
+Print Assumptions C01_earlier_batches_do_not_depend_on_later_writes.
+
+(* the key dispatch of the model is the regenerated one *)
+Theorem C01_save_obs_dispatch_is_regenerated : forall (V : Type) (dV : V) key (o : obs V),
+  save_value_with dV (fun k => save_guard k true) key o = save_value dV key o.
+Proof. exact frag_save_value. Qed.
+Print Assumptions C01_save_obs_dispatch_is_regenerated.
+
+Theorem C01_save_obs_loop_and_subscripts_are_regenerated :
+  save_loop_source = 1%Z /\ save_plain_bufkey = 1%Z /\ save_plain_row = 1%Z /\ save_plain_value = 1%Z /\
+  save_item_bufkey = 1%Z /\ save_item_row = 1%Z /\ save_item_value = 2%Z /\ ofb_return = 1%Z.
+Proof. exact frag_save_codes. Qed.
+Print Assumptions C01_save_obs_loop_and_subscripts_are_regenerated.
+
+Theorem C01_dict_to_obs_dispatch_is_regenerated : forall (V : Type) sp (b : buf V),
+  dict_to_obs_code (dto_code (is_dict sp) (is_tuple sp)) sp b = dict_to_obs sp b.
+Proof. exact frag_dict_to_obs. Qed.
+Print Assumptions C01_dict_to_obs_dispatch_is_regenerated.
+
+Theorem C01_obs_space_info_dispatch_is_regenerated : forall sp,
+  obs_space_info_code (osi_code (is_dict sp) (is_tuple sp)) sp = obs_space_info sp /\
+  osi_loop_source = 1%Z /\ osi_appended = 1%Z /\ osi_return = 1%Z.
+Proof. exact frag_obs_space_info. Qed.
+Print Assumptions C01_obs_space_info_dispatch_is_regenerated.
+
+Theorem C01_stack_obs_dispatch_is_regenerated : forall (V : Type) (dV : V) sp (l : list (obs V)),
+  stack_obs_code dV (stk_code (is_dict sp) (is_tuple sp)) sp l = stack_obs dV sp l /\ stk_tuple_len = 1%Z.
+Proof. exact frag_stack_obs. Qed.
+Print Assumptions C01_stack_obs_dispatch_is_regenerated.
+
+(* VecEnv._get_indices: None -> range(num_envs), int -> [i], anything else kept *)
+Theorem C01_get_indices_is_regenerated : forall n ix,
+  indices_of_code (gi_code ix) n ix = get_indices n ix /\ gi_return = 1%Z.
+Proof. exact frag_get_indices. Qed.
+Print Assumptions C01_get_indices_is_regenerated.
+
+Theorem C01_indexed_methods_use_get_indices :
+  gte_indices = 1%Z /\ gte_return = 1%Z /\ get_attr_targets = 1%Z /\ get_attr_return = 1%Z /\ set_attr_targets = 1%Z /\
+  set_attr_loop_source = 1%Z /\ set_attr_receiver = 1%Z /\ env_method_targets = 1%Z /\ env_method_return = 1%Z /\
+  is_wrapped_targets = 1%Z /\ is_wrapped_return = 1%Z.
+Proof. exact frag_indexed_methods. Qed.
+Print Assumptions C01_indexed_methods_use_get_indices.
+
+(* get_attr / set_attr / env_method / env_is_wrapped with indices ix (any per-env handler f): the sub-environments touched are
+   exactly the positions of _get_indices(ix), in that order, repetitions included; an untouched sub-environment keeps its state;
+   sub-environment j sees as many calls as j occurs among the targets, each on the state its previous call left *)
+Theorem C01_indexed_call_touches_get_indices : forall (W R : Type) (f : W -> W * R) sts ix ts,
+  target_envs (length sts) ix = Some ts ->
+  indexed_call f sts ix = Some (call_loop f sts ts) /\
+  map fst (snd (call_loop f sts ts)) = ts /\
+  length (fst (call_loop f sts ts)) = length sts /\
+  (forall j, ~ In j ts -> nth_error (fst (call_loop f sts ts)) j = nth_error sts j) /\
+  (forall j s, nth_error sts j = Some s ->
+     nth_error (fst (call_loop f sts ts)) j = Some (fst (iter_calls f s (count_occ Nat.eq_dec ts j))) /\
+     map snd (filter (fun p => Nat.eqb (fst p) j) (snd (call_loop f sts ts))) = snd (iter_calls f s (count_occ Nat.eq_dec ts j))).
+Proof. exact indexed_call_touches_get_indices. Qed.
+Print Assumptions C01_indexed_call_touches_get_indices.
+
+(* what the code does with negative / out-of-range indices: self.envs[i] is Python list indexing *)
+Theorem C01_target_positions : forall n,
+  target_envs n INone = Some (seq 0 n) /\
+  (forall i, (0 <= i < Z.of_nat n)%Z -> target_envs n (IInt i) = Some [Z.to_nat i]) /\
+  (forall i, (- Z.of_nat n <= i < 0)%Z -> target_envs n (IInt i) = Some [n - Z.to_nat (- i)]) /\
+  (forall i, (i < - Z.of_nat n \/ Z.of_nat n <= i)%Z -> target_envs n (IInt i) = None) /\
+  (forall ix ts, target_envs n ix = Some ts -> Forall (fun t => t < n) ts).
+Proof. exact target_positions. Qed.
+Print Assumptions C01_target_positions.
+
+(* non-vacuity: a Dict buffer with 3 envs after a history, a negative and a repeated index *)
+Example C01_obsbuf_example :
+  let sp := SDict [7; 3]%Z in
+  let o (t : Z) := ODict [(3, t); (7, t + 100)]%Z in
+  wf_space sp /\ wf_buf sp 3 (buf_init 0%Z (obs_space_info sp) 3) /\
+  snd (wrun_init 0%Z sp 3 [WSave 1 (o 5%Z); WSnap; WSave 0 (o 6%Z); WSave 1 (o 8%Z); WSnap]) =
+    [BDict [(7, [0; 105; 0]); (3, [0; 5; 0])]; BDict [(7, [106; 108; 0]); (3, [6; 8; 0])]]%Z /\
+  stack_obs 0%Z (STuple 2) [OTup [1; 2]; OTup [3; 4]]%Z = BTup [[1; 3]; [2; 4]]%Z.
+Proof. repeat split; try (repeat constructor; simpl; intuition congruence). Qed.
+Example C01_target_envs_example :
+  target_envs 3 (IList [-1; 0; 0]%Z) = Some [2; 0; 0] /\ target_envs 3 (IList [3]%Z) = None /\ target_envs 3 (IInt (-3)) = Some [0] /\
+  snd (call_loop (fun s : Z => ((s + 1)%Z, s)) [10; 20; 30]%Z [2; 0; 0]) = [(2, 30%Z); (0, 10%Z); (0, 11%Z)].
+Proof. repeat split. Qed.
